@@ -78,7 +78,7 @@ def _proof_task(args):
         from .proofs import base
         load_families(prop)
         fam = [f for f in base.REGISTRY if f.name == fam_name][0]
-        r = base.run_kind(fam, kind, timeout_ms=timeout_ms, config=config)
+        r = base.run_kind(fam, kind, timeout_ms=max(timeout_ms, fam.timeout_ms), config=config)
         r["config"] = config
         return r
     except Exception as e:
